@@ -130,7 +130,7 @@ theorem step_defined (d : Db) (op : Op) : Defined (step d op).2 := by
       · exact peAddBack_defined _ _ _ _ _
   | removeTrackFrom c t =>
     simp only [step]
-    cases peGet d c t <;> exact Defined.ok _
+    cases peFind d c t 0 <;> exact Defined.ok _
   | clearTracks c => exact Defined.ok _
   | peAddBack l t uu f => exact peAddBack_defined _ _ _ _ _
   | peRemove l e =>
